@@ -229,6 +229,7 @@ func (w *World) Close() {
 			app.VerifStopTimers()
 		}
 	}
+	w.CC.VerifForgetManagers()
 	w.CC = nil
 }
 
